@@ -446,7 +446,7 @@ fn val() -> impl Strategy<Value = ValSpec> {
 fn case_strategy() -> impl Strategy<Value = Case> {
     (
         ctor(),
-        prop_oneof![4 => proptest::collection::vec((tag(), val()), 0..8), 1 => proptest::collection::vec((tag(), val()), 0..41)],
+        prop_oneof![8 => proptest::collection::vec((tag(), val()), 0..8), 2 => proptest::collection::vec((tag(), val()), 0..41), 1 => proptest::collection::vec((tag(), leaf()), 41..300)],
         any::<bool>(),
         prop_oneof![Just(SinkKind::Iovec), Just(SinkKind::HcobsEncoder)],
     )
@@ -523,7 +523,7 @@ fn replay(_ctx: &Ctx, group: &str, case: &Value) -> CaseResult {
 pub fn def() -> PropDef {
     PropDef {
         id: "C11",
-        rule: "random: a case is a list of 0..40 (tag, value) pairs - tags from a small pool (repeats), named tags and uniform u32; values are &[u8], borrowed/owned Cow<[u8]>, &str, borrowed/owned Cow<str> (lengths 0, 1..5, ~64, ~256, up to 2 KiB), nested MessageWrappers to depth 3 built with any constructor, or a MessageView re-encoded as a value - a constructor (new, new_from_slice, new_from_sorted on sorted or unsorted input) and a sink (OwningIovec, or hcobs::Encoder whose output is decoded by the reference codec). Oracle: emitted bytes equal the reference layout of the stably sorted pairs, rough_tlv_len() equals the emitted length, MessageView accepts and iter/get/get_value/tags/len return the sorted pairs, find returns a value stored under exactly that tag or None iff absent, new_from_sorted rejects exactly the lists with a decreasing tag. limits / limit-edges: values that only claim a length (never encoded) around i32::MAX for single values and totals; accept/reject and rough_tlv_len compared with i128 arithmetic. Non-trivial (random): N <= 1, repeated tags, an empty value or nesting; (limits): a length or total within 3 of i32::MAX. Distinct: hash of the serialised case.",
+        rule: "random: a case is a list of 0..40 (tag, value) pairs (41..300 leaf-valued pairs in one case out of 11) - tags from a small pool (repeats), named tags and uniform u32; values are &[u8], borrowed/owned Cow<[u8]>, &str, borrowed/owned Cow<str> (lengths 0, 1..5, ~64, ~256, up to 2 KiB), nested MessageWrappers to depth 3 built with any constructor, or a MessageView re-encoded as a value - a constructor (new, new_from_slice, new_from_sorted on sorted or unsorted input) and a sink (OwningIovec, or hcobs::Encoder whose output is decoded by the reference codec). Oracle: emitted bytes equal the reference layout of the stably sorted pairs, rough_tlv_len() equals the emitted length, MessageView accepts and iter/get/get_value/tags/len return the sorted pairs, find returns a value stored under exactly that tag or None iff absent, new_from_sorted rejects exactly the lists with a decreasing tag. limits / limit-edges: values that only claim a length (never encoded) around i32::MAX for single values and totals; accept/reject and rough_tlv_len compared with i128 arithmetic. Non-trivial (random): N <= 1, repeated tags, an empty value or nesting; (limits): a length or total within 3 of i32::MAX. Distinct: hash of the serialised case.",
         assumptions: &["the reference layout (refimpl/tlv_ref.rs) is written from the crate's format documentation and checked against its documented example", "pair counts above i32::MAX only in the thorough tier"],
         exhaustive_note: None,
         shards: |t: Tier| t.pick(8, 16),
